@@ -7,12 +7,15 @@
    set and for every input whatsoever, is well-formed UTF-8 -- a scanned name
    or string that is not is rejected by the from_utf8 check. For &str input the
    code skips that check (from_utf8_unchecked), relying on the input being a
-   str and on scanning at character boundaries; that case is decided by the
-   correspondence and by the verif-hooks assertions in /repo, which re-check
-   the bytes at each unchecked conversion (theorems.json). *)
+   str; that reliance is proved sound: whenever the whole input is well-formed
+   UTF-8, every string, symbol and keyword of every value returned is too, for
+   every option set (C17_str_input, C17_str_input_datum, C17_str_every_call) -
+   the scanners cut the input only at ASCII bytes or after whole, validated
+   characters. The verif-hooks assertions in /repo re-check the bytes at each
+   unchecked conversion at run time, tying this to the implementation. *)
 From Coq Require Import SpecFloat.
 Require Import Base Value Float PrintOptions Printer ParseOptions Utf8 Reader Scan Num NumberOps Parser.
-Require Import Utf8Proofs Utf8PrintProofs Utf8ParseProofs.
+Require Import Utf8Proofs Utf8PrintProofs Utf8ParseProofs DatumProofs Utf8StrProofs.
 
 Theorem C17_printer_default : forall ryu, (forall f, all_ascii (ryu f)) ->
   forall v, strs_valid v -> utf8_valid (print0 ryu v) = true.
@@ -38,6 +41,45 @@ Theorem C17_parser_every_call : forall ro alpha fast std_parse k fuel s o s', k 
   next_value ro alpha fast std_parse fuel s = (POk (Some o), s') -> strs_valid o.
 Proof. exact next_value_valid. Qed.
 Print Assumptions C17_parser_every_call.
+
+(* &str input: bytes_events W is the event stream of the str with bytes W *)
+Theorem C17_str_input : forall ro alpha fast std_parse W v, utf8_valid W = true ->
+  from_trait ro alpha fast std_parse SrcStr (bytes_events W) = POk v -> strs_valid v.
+Proof. exact from_trait_str_valid. Qed.
+Print Assumptions C17_str_input.
+
+Theorem C17_str_input_datum : forall ro alpha fast std_parse W d, utf8_valid W = true ->
+  datum_from_trait ro alpha fast std_parse SrcStr (bytes_events W) = POk d -> strs_valid (dvalue d).
+Proof.
+  intros ro alpha fast std_parse W d HW E. apply (from_trait_str_valid ro alpha fast std_parse W _ HW).
+  rewrite from_trait_agree, E. reflexivity.
+Qed.
+Print Assumptions C17_str_input_datum.
+
+(* every call on a str parser: okr W r says r is a str reader somewhere inside W
+   (position invariant, source kind, all events are bytes); it holds initially
+   and every successful call re-establishes it, so the statement chains *)
+Theorem C17_str_every_call : forall W ro alpha fast std_parse fuel s, utf8_valid W = true -> okr W (rd s) ->
+  match next_value ro alpha fast std_parse fuel s with
+  | (POk (Some v), s') => okr W (rd s') /\ strs_valid v
+  | (POk None, s') => okr W (rd s')
+  | (PErr _, _) => True
+  end.
+Proof.
+  intros W ro alpha fast std_parse fuel s HW Ho.
+  pose proof (proj1 (values_valid_str W HW ro alpha fast std_parse fuel) s Ho I) as H.
+  destruct (next_value ro alpha fast std_parse fuel s) as [[[v|]|e] s1]; try exact I; [exact H|apply H].
+Qed.
+Print Assumptions C17_str_every_call.
+
+(* the unchecked conversions see: a symbol with a non-ASCII first letter, a
+   string with escapes next to multi-byte characters, a keyword *)
+Example C17_str_nonvacuous :
+  let W := s2b "(" ++ [206; 187] ++ s2b "x #:k ""a\x3bb;" ++ [240; 159; 146; 150] ++ s2b "\n"")" in
+  utf8_valid W = true /\
+  from_trait default_ro (fun _ => true) true dec_to_f64 SrcStr (bytes_events W) =
+    POk (vlist [Symbol [206; 187; 120]; Keyword (s2b "k"); String ([97; 206; 187; 240; 159; 146; 150; 10])]).
+Proof. cbv zeta. split; vm_compute; reflexivity. Qed.
 
 (* validity is what str::from_utf8 accepts: a concatenation of well-formed sequences *)
 Theorem C17_valid_is_sequences : forall l, utf8_valid l = true <-> seqs l.
